@@ -56,19 +56,20 @@ stvars == <<vars, chvars>>
 \* the product tls x InsecureAuth x HasTLSConfig is covered by the reachable states.
 C17Configs == {c \in AllConfigs : ~c.TLS /\ ~c.PreAuth /\ ~c.CapMove /\ ~c.CapNamespace /\ ~c.CapUnauth}
 ClientCfg == [TLS |-> FALSE, InsecureAuth |-> FALSE, PreAuth |-> FALSE, HasTLSConfig |-> TRUE,
-              CapMove |-> FALSE, CapNamespace |-> FALSE, CapUnauth |-> FALSE]
+              CapMove |-> FALSE, CapNamespace |-> FALSE, CapUnauth |-> FALSE, Sasl |-> FALSE]
 
 \* ------------------------------------------------------------------ catalogue
 L(t, c) == [tag |-> t, c |-> c, n |-> 4]      \* model lines: 4 cut points (text | text | CR | LF)
 
 \* server side: [pre] a STARTTLS [suffix]
-SrvPre == {<<>>, <<L("p", "CAPABILITY")>>, <<L("p", "LOGIN")>>, <<L("p", "NOOP")>>}
+\* (AUTHENTICATE-X: a SASL mechanism other than PLAIN, known to sessions with their own mechanisms - cfg.Sasl)
+SrvPre == {<<>>, <<L("p", "CAPABILITY")>>, <<L("p", "LOGIN")>>, <<L("p", "NOOP")>>, <<L("p", "AUTHENTICATE-X")>>}
 SrvSuffix == {<<>>, <<L("b", "LOGIN")>>, <<L("b", "NOOP")>>, <<L("b", "CAPABILITY")>>,
-              <<L("b", "CREATE")>>, <<L("b", "AUTHENTICATE")>>,
+              <<L("b", "CREATE")>>, <<L("b", "AUTHENTICATE")>>, <<L("b", "AUTHENTICATE-X")>>,
               <<L("b", "LOGIN"), L("e", "CREATE")>>}
 SrvCases == {[side |-> "server", lines |-> p \o <<L("a", "STARTTLS")>> \o s] : p \in SrvPre, s \in SrvSuffix}
 SrvCasesSmall == {[side |-> "server", lines |-> p \o <<L("a", "STARTTLS")>> \o s] :
-                     p \in {<<>>, <<L("p", "LOGIN")>>}, s \in SrvSuffix}
+                     p \in {<<>>, <<L("p", "LOGIN")>>, <<L("p", "AUTHENTICATE-X")>>}, s \in SrvSuffix}
 
 \* client side: greeting [pre] T-OK [suffix]
 \*   GOK  `* OK ready`            GOKC `* OK [CAPABILITY <PlainCaps>] ready`
